@@ -1,81 +1,112 @@
 (* C16 — serde values convert to GraphQL values and back without loss.
    Only property theorems here: each is closed by [exact], its statement is
-   pinned by [Check] and its assumptions are printed. *)
+   pinned by [Check] and its assumptions are printed.
+
+   [q] is the quirk flag of the one known class that has an obvious repair
+   (field-less tuple variants): true = today's code, false = repaired code.
+   The check infers it by running the class's witness on the real code. *)
 From AG Require Import SerdeRT SerdeRTProofs.
 Open Scope Z_scope.
 
 (* For every well-formed serde type descriptor (any nesting of structs, unit /
    newtype / tuple / struct variants, options, string-keyed maps, sequences,
    tuples, integers by width, floats, bool, string, bytes, unit) and every
-   well-typed value outside the four known classes, from_value (to_value v)
-   returns v.  [known_class v = 0] says: v contains no Some(x) with x
-   serialised as null, no non-finite float, no field-less tuple variant, no
-   128-bit integer; [has_char v = false] restricts to the property's domain. *)
-Theorem C16_roundtrip : forall t v,
-    wf_ty t = true -> has_type t v = true -> known_class v = 0%N -> has_char v = false ->
-    roundtrip t v = Ok v.
+   well-typed value outside the known classes, from_value (to_value v)
+   returns v.  [known_class q v = 0] says: v contains no Some(x) with x
+   serialised as null, no non-finite float, no 128-bit integer and (flag on)
+   no field-less tuple variant; [has_char v = false] restricts to the
+   property's list of shapes. *)
+Theorem C16_roundtrip : forall q t v,
+    wf_ty t = true -> has_type t v = true -> known_class q v = 0%N -> has_char v = false ->
+    roundtrip q t v = Ok v.
 Proof. exact roundtrip_known_class. Qed.
 
 (* the same, showing both halves: to_value succeeds and from_value inverts it *)
-Theorem C16_roundtrip_steps : forall t v,
-    wf_ty t = true -> has_type t v = true -> clean v ->
-    exists g, ser v = Ok g /\ de t g = Ok v.
+Theorem C16_roundtrip_steps : forall q t v,
+    wf_ty t = true -> has_type t v = true -> clean q v ->
+    exists g, ser v = Ok g /\ de q t g = Ok v.
 Proof. exact roundtrip_all. Qed.
 
-Theorem C16_clean_iff : forall v, clean v <-> (known_class v = 0%N /\ has_char v = false).
+Theorem C16_clean_iff : forall q v, clean q v <-> (known_class q v = 0%N /\ has_char v = false).
 Proof. exact clean_iff. Qed.
 
+Theorem C16_class3_empty_when_repaired : forall v, known_class false v <> 3%N.
+Proof. exact known_class_off. Qed.
+
 (* known findings: each excluded class contains a value that does not survive *)
-Theorem C16_some_none_refuted :
+Theorem C16_some_none_refuted : forall q,
   let t := TOption (TOption (TInt I32)) in let v := SSome SNone in
-  wf_ty t = true /\ has_type t v = true /\ known_class v = 1%N /\ roundtrip t v = Ok SNone.
+  wf_ty t = true /\ has_type t v = true /\ known_class q v = 1%N /\ roundtrip q t v = Ok SNone.
 Proof. exact some_none_refuted. Qed.
 
-Theorem C16_some_unit_refuted :
+Theorem C16_some_unit_refuted : forall q,
   let t := TOption TUnit in let v := SSome SUnit in
-  wf_ty t = true /\ has_type t v = true /\ known_class v = 1%N /\ roundtrip t v = Ok SNone.
+  wf_ty t = true /\ has_type t v = true /\ known_class q v = 1%N /\ roundtrip q t v = Ok SNone.
 Proof. exact some_unit_refuted. Qed.
 
-Theorem C16_some_nan_refuted :
+Theorem C16_some_nan_refuted : forall q,
   let t := TOption TF64 in let v := SSome (SF64 NAN64) in
-  wf_ty t = true /\ has_type t v = true /\ known_class v = 1%N /\ roundtrip t v = Ok SNone.
+  wf_ty t = true /\ has_type t v = true /\ known_class q v = 1%N /\ roundtrip q t v = Ok SNone.
 Proof. exact some_nan_refuted. Qed.
 
-Theorem C16_nonfinite_refuted :
+Theorem C16_nonfinite_refuted : forall q,
   let t := TF64 in let v := SF64 NAN64 in
-  wf_ty t = true /\ has_type t v = true /\ known_class v = 2%N /\ roundtrip t v = Err E_DE.
+  wf_ty t = true /\ has_type t v = true /\ known_class q v = 2%N /\ roundtrip q t v = Err E_DE.
 Proof. exact nonfinite_refuted. Qed.
 
 Theorem C16_empty_tuple_variant_refuted :
   let t := TEnum [([90%N], (KTuple, TTuple []))] in let v := SVariant [90%N] KTuple (STuple []) in
-  wf_ty t = true /\ has_type t v = true /\ known_class v = 3%N /\
-  ser v = Ok (GObj [([90%N], GList [])]) /\ roundtrip t v = Err E_DE.
+  wf_ty t = true /\ has_type t v = true /\ known_class true v = 3%N /\
+  ser v = Ok (GObj [([90%N], GList [])]) /\ roundtrip true t v = Err E_DE /\ roundtrip false t v = Ok v.
 Proof. exact empty_tuple_variant_refuted. Qed.
 
-Theorem C16_int128_refuted :
+Theorem C16_int128_refuted : forall q,
   let t := TInt I128 in let v := SInt I128 1 in
-  wf_ty t = true /\ has_type t v = true /\ known_class v = 4%N /\ ser v = Err E_SER.
+  wf_ty t = true /\ has_type t v = true /\ known_class q v = 4%N /\ ser v = Err E_SER.
 Proof. exact int128_refuted. Qed.
+
+(* every root instance of a class fails, not only the witnesses above *)
+Theorem C16_class1_all_fail : forall q t v,
+    ser_is_null v = true -> roundtrip q (TOption t) (SSome v) = Ok SNone.
+Proof. exact class1_all_fail. Qed.
+
+Theorem C16_class2_all_fail : forall q b,
+    f64_finite b = false ->
+    roundtrip q TF64 (SF64 b) = Err E_DE /\ roundtrip q TF32 (SF32 b) = Err E_DE.
+Proof. exact class2_all_fail. Qed.
+
+Theorem C16_class3_all_fail : forall vs n,
+    variant_typed has_type n KTuple (STuple []) vs = true ->
+    roundtrip true (TEnum vs) (SVariant n KTuple (STuple [])) = Err E_DE.
+Proof. exact class3_all_fail. Qed.
+
+Theorem C16_class4_all_fail : forall q t w z, is128 w = true -> roundtrip q t (SInt w z) = Err E_SER.
+Proof. exact class4_all_fail. Qed.
 
 (* the hypotheses of C16_roundtrip are met by a four-level nested value *)
 Theorem C16_nonvacuous :
-  wf_ty ex_ty = true /\ has_type ex_ty ex_val = true /\ known_class ex_val = 0%N /\ has_char ex_val = false /\
-  roundtrip ex_ty ex_val = Ok ex_val.
+  wf_ty ex_ty = true /\ has_type ex_ty ex_val = true /\ known_class true ex_val = 0%N /\ has_char ex_val = false /\
+  roundtrip true ex_ty ex_val = Ok ex_val.
 Proof. exact nonvacuous. Qed.
 
-Check C16_roundtrip : forall t v,
-    wf_ty t = true -> has_type t v = true -> known_class v = 0%N -> has_char v = false ->
-    roundtrip t v = Ok v.
-Check C16_roundtrip_steps : forall t v,
-    wf_ty t = true -> has_type t v = true -> clean v -> exists g, ser v = Ok g /\ de t g = Ok v.
+Check C16_roundtrip : forall q t v,
+    wf_ty t = true -> has_type t v = true -> known_class q v = 0%N -> has_char v = false ->
+    roundtrip q t v = Ok v.
+Check C16_roundtrip_steps : forall q t v,
+    wf_ty t = true -> has_type t v = true -> clean q v -> exists g, ser v = Ok g /\ de q t g = Ok v.
 
 Print Assumptions C16_roundtrip.
 Print Assumptions C16_roundtrip_steps.
 Print Assumptions C16_clean_iff.
+Print Assumptions C16_class3_empty_when_repaired.
 Print Assumptions C16_some_none_refuted.
 Print Assumptions C16_some_unit_refuted.
 Print Assumptions C16_some_nan_refuted.
 Print Assumptions C16_nonfinite_refuted.
 Print Assumptions C16_empty_tuple_variant_refuted.
 Print Assumptions C16_int128_refuted.
+Print Assumptions C16_class1_all_fail.
+Print Assumptions C16_class2_all_fail.
+Print Assumptions C16_class3_all_fail.
+Print Assumptions C16_class4_all_fail.
 Print Assumptions C16_nonvacuous.
